@@ -501,6 +501,43 @@ fn main() {
             n_ex += 1;
         }
         w.stats.add("exhaustive_histories", n_ex);
+        // bulks that themselves span the forgiveness period: one item more than a period newer than
+        // another item of the same origin, after the other source has heard that origin equally
+        // late (so the cut-off really moves while the bulk is folded into the set) - every kind,
+        // source, id order, stamp order inside the request, with and without a restart
+        let mut n_span = 0u64;
+        for b0 in [7u64, 80_000_000] {
+            for gap in [W_TICKS + 100, 2 * W_TICKS, W_TICKS - 3] {
+                for kind in ["S", "D"] {
+                    for src in 0..2u64 {
+                        for (ida, idb) in [(1u64, 2u64), (2, 1)] {
+                            for late_first in [true, false] {
+                                for origin_b in [1u64, 2] {
+                                    let early = mk(b0 + 5, 0, origin_b);
+                                    let late = mk(b0 + gap + 7, 0, 1);
+                                    let heard = mk(b0 + gap + 6, 0, 1);
+                                    let heard_b = mk(b0 + gap + 6, 1, origin_b);
+                                    let item = |id: u64, t: u64| if kind == "S" { format!("{:x}.{:x}.{:x}", id, t, 0x700 + id) } else { format!("{:x}.{:x}", id, t) };
+                                    let items = if late_first { format!("{},{}", item(ida, late), item(idb, early)) } else { format!("{},{}", item(idb, early), item(ida, late)) };
+                                    let mut toks = vec![
+                                        format!("s:{}:9:{:x}:61:k", 1 - src, heard),
+                                        format!("s:{}:a:{:x}:62:k", 1 - src, heard_b),
+                                        format!("{}:{}:k:{}", kind, src, items),
+                                    ];
+                                    let pr = vec![early, late, heard, mk(b0 + 6, 0, 1), mk(b0 + 6, 0, 2)];
+                                    run_case(&mut w, &pr, &toks).await;
+                                    toks.push("R".into());
+                                    toks.push(format!("d:{}:{:x}:{:x}:k", src, idb, mk(b0 + 6, 0, origin_b)));
+                                    run_case(&mut w, &pr, &toks).await;
+                                    n_span += 2;
+                                }
+                            }
+                        }
+                    }
+                }
+            }
+        }
+        w.stats.add("spanning_bulk_histories", n_span);
         let n_cut = if args.thorough() { 40_000 } else { 4_000 };
         for _ in 0..n_cut {
             let mut pr = Vec::new();
